@@ -4,6 +4,7 @@ package main
 // condition of one or more properties; the run functions of the properties call them with their own rule id.
 
 import (
+	"go/constant"
 	"go/token"
 	"go/types"
 	"regexp/syntax"
@@ -4135,4 +4136,112 @@ func fetchPathsLastValueWins(c *Ctx, rule string) {
 			name+" merges all values of the option: patterns from a repository's .lfsconfig stay in force although the user set the option in Git's own configuration")
 	}
 	c.AtLeast(rule, "fetch path options examined", n, 2)
+}
+
+// everythingIncludesTags (C12): `migrate --everything` rewrites the history behind every local branch, every
+// remote-tracking branch and every tag. Commits reachable only through a tag are walked only if the tag's ref is in
+// the include list: for a ref of each of these three kinds the loop in includeExcludeRefs reaches the append to
+// `include`.
+func everythingIncludesTags(c *Ctx, rule string) {
+	p := c.P
+	fn := p.Fn("commands", "includeExcludeRefs")
+	if fn == nil {
+		c.Missing(rule, "commands.includeExcludeRefs", "not found")
+		return
+	}
+	loops := Loops(fn)
+	// the append of ref.Refspec() inside the loop over all refs
+	targets := map[ssa.Instruction]bool{}
+	var target ssa.Instruction
+	var loop *Loop
+	for _, b := range fn.Blocks {
+		for _, in := range b.Instrs {
+			ac, ok := in.(*ssa.Call)
+			if !ok {
+				continue
+			}
+			bi, isB := ac.Call.Value.(*ssa.Builtin)
+			if !isB || bi.Name() != "append" {
+				continue
+			}
+			els := variadicOrdered(ac.Call.Args[1])
+			if len(els) != 1 || els[0] == nil {
+				continue
+			}
+			if rc, _, ok := CallResult(els[0]); ok && CalleeName(rc.Common()) == "(*git.Ref).Refspec" {
+				if l := LoopOf(loops, b); l != nil {
+					if ro := l.RangedOperand(); ro != nil {
+						if cc, _, ok := CallResult(ro); ok && strings.Contains(CalleeName(cc.Common()), "AllRefs") {
+							target, loop = in, l
+							targets[in] = true
+						}
+					}
+				}
+			}
+		}
+	}
+	if target == nil {
+		c.Missing(rule, "includeExcludeRefs: include = append(include, ref.Refspec()) in the loop over all refs", "not found")
+		return
+	}
+	for _, kind := range []string{"RefTypeLocalBranch", "RefTypeRemoteBranch", "RefTypeLocalTag"} {
+		k, ok := constInt64(p, "git", kind)
+		if !ok {
+			c.Missing(rule, "git."+kind, "constant not found")
+			continue
+		}
+		assume := func(v ssa.Value) (*ssa.Const, bool) {
+			if IsLoadOfField(v, "git.Ref", "Type") {
+				return ssa.NewConst(constant.MakeInt64(k), v.Type()), true
+			}
+			return nil, false
+		}
+		reached := false
+		ExploreX(loop.Body, nil, nil, noReturnCommands, nil, assume, func(in ssa.Instruction, st PState) bool {
+			if targets[in] {
+				reached = true
+				return false
+			}
+			return in.Block() != loop.Header
+		})
+		c.Check(reached, rule, "migrate-everything:includes:"+kind, p.InstrPos(target), "a ref of this kind is added to the refs to rewrite",
+			"with --everything a ref of kind "+kind+" is not added to the refs whose history is rewritten: commits reachable only through such a ref keep their raw blobs, and the ref stays on the old history")
+	}
+}
+
+// scannerCloseErrorReported (C13): `git rev-list` exiting with a failure (a missing tree or blob object) surfaces
+// only as the error returned by the rev-list scanner's Close. revListShas sends that error to its error channel;
+// a deferred or ignored Close turns a truncated object list into "fsck OK".
+func scannerCloseErrorReported(c *Ctx, rule string) {
+	p := c.P
+	root := p.Fn("lfs", "revListShas")
+	if root == nil {
+		c.Missing(rule, "lfs.revListShas", "not found")
+		return
+	}
+	n := 0
+	for _, fn := range WithAnon(root) {
+		for _, b := range fn.Blocks {
+			for _, in := range b.Instrs {
+				cc := AsCall(in)
+				if cc == nil || CalleeName(cc) != "(*git.RevListScanner).Close" {
+					continue
+				}
+				n++
+				call, isCall := in.(*ssa.Call)
+				sent := false
+				if isCall {
+					// the result is looked at (stored, compared or sent), not dropped
+					for _, r := range Referrers(call) {
+						if _, dbg := r.(*ssa.DebugRef); !dbg {
+							sent = true
+						}
+					}
+				}
+				c.Check(sent, rule, "rev-list:close-error-reported#"+itoa(n), p.InstrPos(in), "the error of closing the rev-list scanner is sent to the error channel",
+					"the error returned by closing the rev-list scanner (the only sign that `git rev-list` failed part-way) is discarded: the scan sees a shorter object list, reports no error, and fsck prints OK for a history it did not walk")
+			}
+		}
+	}
+	c.AtLeast(rule, "closes of the rev-list scanner in revListShas", n, 1)
 }
